@@ -52,14 +52,14 @@ def main(argv: List[str]) -> int:
             except Exception:
                 continue
             stop = False
-            for style in ("plain", "twins", "deep"):
+            for style in ("plain", "twins", "deep", "neighbours-up", "neighbours-down", "fragments"):
                 sweeps_mod.EXTRAS_STYLE = style
                 try:
                     jx = inject_extras(mm, t, j)
                 finally:
                     sweeps_mod.EXTRAS_STYLE = "plain"
                 sweep += 1
-                tag = {"plain": "", "twins": ":look-alike-keys", "deep": ":deep-payload"}[style]
+                tag = {"plain": "", "twins": ":look-alike-keys", "deep": ":deep-payload", "neighbours-up": ":keys-of-the-level-below", "neighbours-down": ":keys-of-the-level-above", "fragments": ":pieces-of-discriminating-keys"}[style]
                 try:
                     obj = conv.structure(jx, cls)
                     out = conv.unstructure(obj)
